@@ -9,6 +9,7 @@ import (
 	"encoding/json"
 	"fmt"
 	"math"
+	"math/big"
 	"sort"
 	"strings"
 	"time"
@@ -490,6 +491,13 @@ func genC10(r *simrt.Rand, tier string) json.RawMessage {
 	ver := 0
 	nIds := r.Range(3, 12)
 	c.Ops = genWrites(r, c.Nodes, r.Range(4, 14), nIds, &ver, 0)
+	for i := range c.Ops {
+		// a batch in which one item has the wrong dimension: it is refused, the others are routed as ever
+		if (c.Ops[i].K == "bins" || c.Ops[i].K == "bupd") && len(c.Ops[i].Ids) > 1 && r.Bool(0.2) {
+			c.Ops[i].Dim = []int{1, 3, 5}[r.Intn(3)]
+			c.Ops[i].DimAt = r.Range(1, len(c.Ops[i].Ids))
+		}
+	}
 	if tier == "thorough" && r.Bool(0.03) || tier != "thorough" && r.Bool(0.015) {
 		// many partitions (the property quantifies over 1..1024): one node, few operations
 		c.Nodes, c.Replicas = 1, 1
@@ -566,8 +574,8 @@ func execRouting(prop string, raw json.RawMessage, wantLog bool) (out Outcome) {
 			if !ok || h.op.DS != 0 {
 				continue
 			}
-			dimOK := h.op.Dim == 0 || h.op.Dim == info.dim
 			for i, id := range h.op.Ids {
+				dimOK := itemDimOK(h.op, i, info.dim)
 				ver := 0
 				if i < len(h.op.Vers) {
 					ver = h.op.Vers[i]
@@ -613,6 +621,15 @@ func execRouting(prop string, raw json.RawMessage, wantLog bool) (out Outcome) {
 						return
 					}
 					where[v.Id] = pid
+					// the partition is the one the id belongs to by the stated rule, computed here with
+					// arbitrary-precision arithmetic from the id and the partition count alone
+					if d0 := r.datasetOn(r.aliveNodes()[0], info.id); d0 != nil && len(d0.Partitions) == info.p {
+						if want := d0.Partitions[ownerOf(v.Id, info.p)].Id; want != pid {
+							r.viol("id-stored-in-a-partition-that-does-not-own-it", "id %s is stored in partition %s; by ((lo64 mod n)+(hi64 mod n)) mod n with n=%d it belongs to partition #%d = %s", v.Id, shortG(pid), info.p, ownerOf(v.Id, info.p), shortG(want))
+							return
+						}
+						r.out.Stat("owners_checked_with_independent_arithmetic", 1)
+					}
 					// the stored value and metadata are what a sequential map holds after the same operations
 					if id, ok := byUUID[v.Id]; ok {
 						ver := m.items[id]
@@ -664,6 +681,23 @@ func sameMetaUnused(a, b map[string]string) bool {
 	return true
 }
 
+// ownerOf: index of the partition an id belongs to: ((lo64 mod n) + (hi64 mod n)) mod n,
+// the two halves read as little-endian integers; computed with big integers so that
+// nothing depends on how the machine arithmetic of the product wraps.
+func ownerOf(id uuid.UUID, n int) int {
+	half := func(b []byte) *big.Int {
+		rev := make([]byte, len(b))
+		for i := range b {
+			rev[len(b)-1-i] = b[i]
+		}
+		return new(big.Int).SetBytes(rev)
+	}
+	nn := big.NewInt(int64(n))
+	lo := new(big.Int).Mod(half(id[:8]), nn)
+	hi := new(big.Int).Mod(half(id[8:]), nn)
+	return int(new(big.Int).Mod(new(big.Int).Add(lo, hi), nn).Int64())
+}
+
 func execC10(raw json.RawMessage, wantLog bool) Outcome { return execRouting("C10", raw, wantLog) }
 
 // ---------------------------------------------------------------------------
@@ -682,11 +716,18 @@ func genC11(r *simrt.Rand, tier string) json.RawMessage {
 	c.Ops = genWrites(r, c.Nodes, r.Range(4, 12), nIds, &ver, 0.4)
 	// wrong-dimension items
 	for i := range c.Ops {
-		if c.Ops[i].K != "rem" && c.Ops[i].K != "brem" && r.Bool(0.12) {
+		if c.Ops[i].K != "rem" && c.Ops[i].K != "brem" && r.Bool(0.15) {
 			c.Ops[i].Dim = []int{1, 3, 5}[r.Intn(3)]
+			if strings.HasPrefix(c.Ops[i].K, "b") && len(c.Ops[i].Ids) > 1 && r.Bool(0.7) {
+				// one item of the batch has the wrong dimension, the others are fine
+				c.Ops[i].DimAt = r.Range(1, len(c.Ops[i].Ids))
+			}
 		}
 	}
-	mode := r.Intn(5)
+	mode := r.Intn(6)
+	if mode == 5 && c.Nodes < 3 {
+		mode = 3
+	}
 	if mode <= 1 { // exact comparison with a sequential map needs non-overlapping operations
 		for i := range c.Ops {
 			c.Ops[i].Async = false
@@ -708,6 +749,27 @@ func genC11(r *simrt.Rand, tier string) json.RawMessage {
 			ops := append([]W3Op(nil), c.Ops[:k]...)
 			ops = append(ops, W3Op{K: []string{"crash", "isolate"}[r.Intn(2)], Node: r.Range(1, c.Nodes)})
 			c.Ops = append(ops, c.Ops[k:]...)
+		}
+	case 5: // a node is removed from the membership and its process keeps running (the operator forgot to stop it)
+		{
+			k := r.Range(0, len(c.Ops))
+			ops := append([]W3Op(nil), c.Ops[:k]...)
+			victim := r.Range(2, c.Nodes)
+			ops = append(ops, W3Op{K: "removenode", Node: 1, A: victim}, W3Op{K: "wait", Ms: r.Range(1500, 6000)})
+			c.Ops = append(ops, c.Ops[k:]...)
+			if r.Bool(0.7) {
+				c.Replicas = 1
+			}
+			for i := k; i < len(c.Ops); i++ {
+				switch c.Ops[i].K {
+				case "ins", "upd", "rem", "bins", "bupd", "brem":
+					if c.Ops[i].Node == victim {
+						c.Ops[i].Node = 1
+					}
+				}
+			}
+			c.Faults = true
+			c.Cfg.Net = NetCfg{MinLatMs: 1, JitterMs: 3}
 		}
 	case 3: // the owner is removed from the address book
 		if c.Nodes > 1 {
@@ -768,12 +830,12 @@ func execC11(raw json.RawMessage, wantLog bool) (out Outcome) {
 			}
 			r.waitAll(20 * time.Second)
 			for _, h := range r.hist {
-				for _, id := range h.op.Ids {
+				for i, id := range h.op.Ids {
 					if !h.done || h.perId[id] == "unknown" {
 						r.viol("fault-free-write-failed/overlapping-callers", "no fault is active, yet %s of id#%d through n%d did not get its outcome: %v", h.op.K, id, h.op.Node, h.err)
 						return
 					}
-					if h.op.Dim != 0 && h.op.Dim != r.ds[0].dim && h.perId[id] != "rejected" {
+					if !itemDimOK(h.op, i, r.ds[0].dim) && h.perId[id] != "rejected" {
 						r.viol("wrong-dimension-accepted", "%s of id#%d with a wrong dimension reported %q", h.op.K, id, h.perId[id])
 						return
 					}
@@ -798,8 +860,8 @@ func execC11(raw json.RawMessage, wantLog bool) (out Outcome) {
 		// wrong dimension => rejected, whatever the faults
 		for _, h := range r.hist {
 			if h.op.Dim != 0 && h.op.Dim != r.ds[0].dim && h.done {
-				for _, id := range h.op.Ids {
-					if h.perId[id] == "ok" {
+				for i, id := range h.op.Ids {
+					if h.perId[id] == "ok" && !itemDimOK(h.op, i, r.ds[0].dim) {
 						r.viol("wrong-dimension-accepted", "%s of id#%d with a %d-dimensional vector into a %d-dimensional dataset was acknowledged", h.op.K, id, h.op.Dim, r.ds[0].dim)
 						return
 					}
@@ -818,6 +880,17 @@ func execC11(raw json.RawMessage, wantLog bool) (out Outcome) {
 			r.s.blocked = map[[2]uint64]bool{}
 			r.waitAll(20 * time.Second)
 			r.s.runFor(15 * time.Second)
+			// a removed node whose process was left running is taken out of service now: what it
+			// still holds is not a replica any more and must not be read as one
+			for _, op := range c.Ops {
+				if op.K == "removenode" && op.A >= 1 && op.A <= len(r.s.nodes) && r.s.nodes[op.A-1].alive {
+					r.s.pump()
+					r.s.stopNode(r.s.nodes[op.A-1], true)
+					if r.firstPermanentCrash == 0 {
+						r.firstPermanentCrash = r.s.stamp()
+					}
+				}
+			}
 		} else if !r.settle() {
 			if len(out.Violations) == 0 {
 				r.viol("no-convergence/"+stuckClass(r), "did not converge after faults stopped: %s", r.describeStuck())
